@@ -531,7 +531,11 @@ def run_pair(src, extra=()):
     return rc, out, err, rc2, out2, err2
 
 
-def settle(chk, src, comments, st, why, keys, out1=b""):
+def strip_trailing_commas(b):
+    return b.replace(b",}", b"}").replace(b",]", b"]")
+
+
+def settle(chk, src, comments, st, why, keys, out1=b"", out2=None):
     """True if the failure is fully explained by listed known findings (which are then reported)"""
     if keys and all(chk.is_known(k) for k in keys):
         if st in ("fail:data", "fail:style", "fail:leading"):
@@ -541,11 +545,15 @@ def settle(chk, src, comments, st, why, keys, out1=b""):
     if st == "fail:idempotence" and chk.is_known("leading-content-peek4-short-stream") and short_tail_signature(out1):
         chk.known_finding("leading-content-peek4-short-stream", repr(src[:60]))
         return True
-    if root_scalar(src) and chk.is_known("toplevel-scalar-unwrapped"):
-        # with unwrapping off the same stream must pass (or show only listed defects)
-        rc, out, err, rc2, out2, err2 = run_pair(src, ["--unwrapScalar=false"])
-        st2, why2, keys2 = judge(src, rc, out, err, rc2, out2, comments)
-        if st2 in ("ok", "skip") or (keys2 and all(chk.is_known(k) for k in keys2)):
+    if st == "fail:idempotence" and out2 is not None and out1 != out2 and strip_trailing_commas(out1) == strip_trailing_commas(out2) \
+            and chk.is_known("flow-trailing-comma-before-foot-comment"):
+        chk.known_finding("flow-trailing-comma-before-foot-comment", src[:80])
+        return True
+    if chk.is_known("toplevel-scalar-unwrapped"):
+        # a root scalar printed raw: with unwrapping off the same stream must pass (or show only listed defects), and the two modes must differ
+        rc, out, err, rc2, out2b, err2 = run_pair(src, ["--unwrapScalar=false"])
+        st2, why2, keys2 = judge(src, rc, out, err, rc2, out2b, comments)
+        if out != out1 and (st2 in ("ok", "skip") or (keys2 and all(chk.is_known(k) for k in keys2))):
             chk.known_finding("toplevel-scalar-unwrapped", src[:80])
             for k in sorted(keys2 or []):
                 chk.known_finding(k, src[:80])
@@ -638,7 +646,7 @@ def run(chk):
         chk.count(("id", src), nontrivial=st != "skip" and len(src) > 12,
                   sample={"yaml": src[:200], "out": out.decode("utf-8", "replace")[:200]} if 60 < len(src) < 200 and st == "ok" else None)
         if st.startswith("fail"):
-            if settle(chk, src, comments, st, why, keys, out):
+            if settle(chk, src, comments, st, why, keys, out, out2):
                 stats["known"] = stats.get("known", 0) + 1
                 continue
             n_fail += 1
@@ -810,7 +818,7 @@ def run(chk):
         # the library premise fails: is yq's own output then not a fixed point?  (then it is a defect of the shipped product)
         rc, o1, e1 = vlib.run_yq(["--unwrapScalar=false", "."], stdin=j)
         if rc == 0 and o1 != j:
-            if o1.replace(b",}", b"}").replace(b",]", b"]") == j and chk.is_known("flow-trailing-comma-before-foot-comment"):
+            if strip_trailing_commas(o1) == strip_trailing_commas(j) and chk.is_known("flow-trailing-comma-before-foot-comment"):
                 chk.known_finding("flow-trailing-comma-before-foot-comment", j.decode("utf-8", "replace")[:80])
             else:
                 chk.extra.setdefault("H_reread_stream_failures", []).append({"stream": j.decode("utf-8", "replace")[:300], "again": o1.decode("utf-8", "replace")[:300]})
